@@ -2074,6 +2074,20 @@ func TestVerifC07Path(t *testing.T) {
 				if onQuirk {
 					kind = "raw-add" // rests on the known finding: the commit puts an amount on a name the device does not expose
 				}
+				if hetero {
+					// "for every resource it EXPOSES": fillGPUTotalMem adds the derived gpu-memory / gpu-memory-ratio to the
+					// allocation; on a device that does not expose that name the amount is not an over-commit of the device
+					for _, a := range g[0] {
+						if rr := before.rows[[2]int{0, a.minor}]; rr != nil && rr.hasF {
+							for k := 0; k < c07D; k++ {
+								if a.vec[k] >= 0 && !rr.fp[k] {
+									kind = "raw-add"
+									h.Tag("hetero:amount-on-unexposed-name")
+								}
+							}
+						}
+					}
+				}
 				c.cur = c.emitLedger()
 				c.checkLedger(kind, before, c.cur)
 				pods = append(pods, &c07PathPod{id: id, pod: pod, cs: cs, alloc: result, g: g})
